@@ -342,10 +342,13 @@ def run(ctx) -> None:  # noqa: F811
     f = repo.function(MOD, "calculate_scattering_matrix")
     df = _DF(f.node)
     rets = [r for r in _walk(f.node) if isinstance(r, _ast.Return) and r.value is not None]
-    ctx.require(len(rets) == 1 and isinstance(rets[0].value, _ast.Name), f"{f.qualname}: expected `return <S>`")
-    d = df.single_def(df.cfg.node_of(rets[0]).idx, rets[0].value.id)
-    ctx.require(d is not None and d.value is not None, f"{f.qualname}: the returned matrix has no single definition")
-    e, at = d.value, d.node
+    ctx.require(len(rets) == 1, f"{f.qualname}: expected a single `return <S>`")
+    if isinstance(rets[0].value, _ast.Name):
+        d = df.single_def(df.cfg.node_of(rets[0]).idx, rets[0].value.id)
+        ctx.require(d is not None and d.value is not None, f"{f.qualname}: the returned matrix has no single definition")
+        e, at = d.value, d.node
+    else:
+        e, at = rets[0].value, df.cfg.node_of(rets[0]).idx
     mcalls = [c for c in _walk(f.node) if isinstance(c, _ast.Call) and _cn(c) == "calculate_M_matrix"]
     ctx.require(len(mcalls) == 1, f"{f.qualname}: calculate_M_matrix call not found")
 
